@@ -107,12 +107,18 @@ pub(crate) fn render_frame<S: Sample>(
         }
 
         fb.convert_modular_color(image_header.metadata.bit_depth)?;
-        let fb_scratch = if let Some(buffer) = scratch_buffer {
+        let width = color_padded_region.width as usize;
+        let height = color_padded_region.height as usize;
+        // The Gabor-like filter hands back the buffers the image had before, which are larger than
+        // the padded region when the image was decoded beyond it. EPF leaves its result in the
+        // scratch buffers and labels them with the padded region, so they must have its size.
+        let reusable = scratch_buffer
+            .as_ref()
+            .is_some_and(|b| b.iter().all(|g| g.width() == width && g.height() == height));
+        let fb_scratch = if let (true, Some(buffer)) = (reusable, scratch_buffer) {
             buffer
         } else {
             let tracker = fb.alloc_tracker();
-            let width = color_padded_region.width as usize;
-            let height = color_padded_region.height as usize;
             [
                 AlignedGrid::with_alloc_tracker(width, height, tracker)?,
                 AlignedGrid::with_alloc_tracker(width, height, tracker)?,
